@@ -361,6 +361,9 @@ func (c c09child) Exec(op string) string {
 	if len(f) >= 4 && f[0] == "c09.burst" {
 		return recoverStr(func() string { return c.burst(f[1:]) })
 	}
+	if len(f) >= 2 && f[0] == "c09.table" {
+		return recoverStr(func() string { return c.table(f[1:]) })
+	}
 	if len(f) == 1 && f[0] == "c09.replace" {
 		return recoverStr(c.replace)
 	}
@@ -841,6 +844,203 @@ func (c09child) replace() string {
 	return fmt.Sprintf("stop=%s up=%d/%d leaked=%d %s", res, closed, accepted, leaked, served)
 }
 
+// c09.table <tok>…   the connection table of a Redis processor in front of one node, driven through its public methods:
+//
+//	g  a GET (it makes a connection if the table holds none)         L  the node closes the connections it has (they end by themselves)
+//	P  the next connection whose Start returns from its loops is parked before it takes itself out of the table (client.start.drain)
+//	R  the host list is replaced by an equal one (in the background: it waits for the connections it stops)
+//	E  the parked connection goes on
+//
+// then Stop.  -> stop=<ok|hangs> up=<closed>/<accepted> leaked=<goroutines> gets=<served>/<sent>
+func (c09child) table(toks []string) string {
+	baseG := runtime.NumGoroutine()
+	var mu sync.Mutex
+	accepted, closed := 0, 0
+	var live []net.Conn
+	ln, err := net.Listen("tcp", "127.0.0.1:0")
+	if err != nil {
+		return "sockerr"
+	}
+	defer ln.Close()
+	go func() {
+		for {
+			c, err := ln.Accept()
+			if err != nil {
+				return
+			}
+			mu.Lock()
+			accepted++
+			live = append(live, c)
+			mu.Unlock()
+			go func(c net.Conn) {
+				defer func() {
+					c.Close()
+					mu.Lock()
+					closed++
+					mu.Unlock()
+				}()
+				dec := redis.VerifNewDecoder(c, 4096)
+				for {
+					v, err := dec.Decode()
+					if err != nil {
+						return
+					}
+					rep := "-ERR not now\r\n"
+					if len(v.Array) > 0 && strings.EqualFold(string(v.Array[0].Text), "get") {
+						rep = "$1\r\nv\r\n"
+					} else if len(v.Array) > 0 && strings.EqualFold(string(v.Array[0].Text), "readonly") {
+						rep = "+OK\r\n"
+					}
+					if _, err := c.Write([]byte(rep)); err != nil {
+						return
+					}
+				}
+			}(c)
+		}
+	}()
+	armed := false
+	var parkedRelease chan struct{}
+	reached := make(chan struct{}, 8)
+	redis.VerifSetPause(func(point string, obj interface{}) {
+		if point != "client.start.drain" {
+			return
+		}
+		mu.Lock()
+		a := armed
+		var rel chan struct{}
+		if a {
+			armed = false
+			rel = make(chan struct{})
+			parkedRelease = rel
+		}
+		mu.Unlock()
+		if rel != nil {
+			reached <- struct{}{}
+			<-rel
+		}
+	})
+	defer redis.VerifSetPause(nil)
+	ct := time.Second
+	cfg := &service.Config{
+		Listener:        &service.Listener{Address: &common.Address{Ip: "127.0.0.1", Port: 0}},
+		ConnectTimeout:  &ct,
+		Protocol:        protocol.Redis,
+		ProtocolOptions: &service.Config_RedisOption{RedisOption: &protocol.RedisOption{ReadStrategy: pbredis.ReadStrategy_MASTER}},
+	}
+	c09seq++
+	p, err := proc.New(fmt.Sprintf("verif-c09t-%d", c09seq), cfg, []*host.Host{host.New(ln.Addr().String())})
+	if err != nil {
+		return "procerr"
+	}
+	defer hx.DropScopes("service." + p.Name() + ".")
+	if err := p.Start(); err != nil {
+		return "procerr"
+	}
+	time.Sleep(2 * time.Millisecond)
+	for i := 0; i < 400 && p.Address() == ""; i++ {
+		time.Sleep(time.Millisecond)
+	}
+	time.Sleep(60 * time.Millisecond) // the slot refresh of the start (answered with an error) has made the first connection
+	cl, err := hx.DialClient(p.Address())
+	if err != nil {
+		p.Stop()
+		return "sockerr"
+	}
+	defer cl.C.Close()
+	sent, served := 0, 0
+	release := func() {
+		mu.Lock()
+		rel := parkedRelease
+		parkedRelease = nil
+		armed = false
+		mu.Unlock()
+		if rel != nil {
+			close(rel)
+		}
+	}
+	defer release()
+	var bg sync.WaitGroup
+	for _, t := range toks {
+		switch t {
+		case "g":
+			sent++
+			cl.C.SetDeadline(time.Now().Add(2 * time.Second))
+			if v, err := cl.Do([]byte("get"), []byte("k")); err == nil && string(v.Text) == "v" {
+				served++
+			} else if err != nil {
+				// the reply did not come: the stream is out of step, start a fresh client connection
+				cl.C.Close()
+				if cl, err = hx.DialClient(p.Address()); err != nil {
+					p.Stop()
+					return "sockerr"
+				}
+			}
+		case "L":
+			mu.Lock()
+			cs := live
+			live = nil
+			mu.Unlock()
+			for _, c := range cs {
+				c.Close()
+			}
+			time.Sleep(40 * time.Millisecond)
+		case "P":
+			mu.Lock()
+			armed = parkedRelease == nil
+			mu.Unlock()
+		case "R":
+			bg.Add(1)
+			go func() {
+				defer bg.Done()
+				p.OnSvcAllHostReplace([]*host.Host{host.New(ln.Addr().String())})
+			}()
+			select {
+			case <-reached:
+			case <-time.After(150 * time.Millisecond):
+			}
+		case "E":
+			release()
+			time.Sleep(40 * time.Millisecond)
+		default:
+			p.Stop()
+			return "bad-op"
+		}
+	}
+	release()
+	done := make(chan struct{})
+	go func() { bg.Wait(); close(done) }()
+	select {
+	case <-done:
+	case <-time.After(3 * time.Second):
+	}
+	res := "hangs"
+	stopDone := make(chan struct{})
+	go func() { p.Stop(); close(stopDone) }()
+	select {
+	case <-stopDone:
+		res = "ok"
+	case <-time.After(2500 * time.Millisecond):
+	}
+	cl.C.Close()
+	leaked := 0
+	for i := 0; i < 150; i++ {
+		mu.Lock()
+		a, c := accepted, closed
+		mu.Unlock()
+		leaked = runtime.NumGoroutine() - baseG - 1
+		if a == c && leaked <= 0 {
+			break
+		}
+		time.Sleep(10 * time.Millisecond)
+	}
+	if leaked < 0 {
+		leaked = 0
+	}
+	mu.Lock()
+	defer mu.Unlock()
+	return fmt.Sprintf("stop=%s up=%d/%d leaked=%d gets=%d/%d", res, closed, accepted, leaked, served, sent)
+}
+
 // c09.burst <limit> <clients> <rounds>   a real TCP processor with a connection limit in front of a backend that greets and
 // holds every connection; per round all clients connect at the same moment, the connections are kept until everyone has its
 // verdict, then closed.   -> served=<per round: clients that got the greeting>
@@ -953,6 +1153,12 @@ func (c *c09) Gen(r *hx.Run) {
 			r.Do("c09.redir "+m, true, "redir-full-queue")
 		}
 		r.Do("c09.replace", true, "hosts-replaced-while-a-connection-ends")
+		// random walks over the connection table
+		var tk []string
+		for j := 0; j < 4+rng.Intn(8); j++ {
+			tk = append(tk, []string{"g", "g", "g", "L", "P", "R", "E"}[rng.Intn(7)])
+		}
+		r.Do("c09.table "+strings.Join(tk, " "), true, "table-walk")
 	}
 	// bursts: many clients at the same moment against a connection limit
 	for i := 0; i < r.N(6, 120); i++ {
